@@ -308,6 +308,8 @@ def _index_instances(tier):
 TIER_PARAMS = {'quick': {'conc_cap': 300}, 'thorough': {'conc_cap': 600}}
 
 HARNESSES = [
+    H('h15_0_version_section_kinds', C1.h_kinds, lambda tier: [c for c in C1._kinds_instances(tier) if c['sh_type'] in (0x6ffffffd, 0x6ffffffe, 0x6fffffff)], expect=('ok',),
+      desc='sections of the three version section types are handed out as GNUVerDefSection / GNUVerNeedSection / GNUVerSymSection in every processor and OS ABI context, Solaris objects included (harness shared with C01)'),
     H('h15_5_link_0xffff', C1.h_many_sections, lambda tier: [dict(elfclass=64, little=False, n=0x10001, links_first=True)], expect=('ok',), decoy=-1,
       desc='a file with more than 0xff00 sections whose version sections (and symbol table, dynamic section) link to the string table at index 0xffff: '
            'names come from THAT section, not from the section name table the file header escapes to with the same value (ground instance; harness shared with C01)'),
